@@ -193,7 +193,7 @@ c.properties = ("C12", "C09", "C04")
 # C12: rhs/schemes number the output slots along sorted_assignments(remove_unused=R) while state_index and the
 # initial values number them along sorted_assignments(remove_unused=False): the derivative subsequence must agree.
 c.ensures["derivative_order_independent_of_remove_unused"] = (
-    "implies(assignments_only, filter_sd(result, len(result)) == "
+    "implies(assignments_only and returns(self.sorted_assignments(assignments_only, False)), filter_sd(result, len(result)) == "
     "filter_sd(self.sorted_assignments(assignments_only, False), len(self.sorted_assignments(assignments_only, False))))")
 
 # ----------------------------------------------------------------------------- dependents (pointwise, ghost a/d/i)
